@@ -49,10 +49,13 @@ def run(ctx):
     with bfsrun.Monitors() as mon:
         for gd, cfgd, starts, kw in cases:
             graph = G.make_graph(gd, cfgd)
-            obs, _ = bfsrun.observe(graph, starts, kw, None)
+            # start states are handed over as lists (mostly) or as NumPy arrays / tensors of any integer type that holds the symbols
+            cont = G.pick_container(ctx.rng, [v for s_ in starts for v in s_], 0.7)
+            ctx.count("starts_container_" + cont)
+            obs, _ = bfsrun.observe(graph, starts, kw, None, cont)
             layers, dist = G.ref_bfs(gd, starts)
             nontrivial = len(dist) >= 4 and len(layers) >= 3
-            case_json = {"graph": gd, "config": cfgd, "starts": starts, "bfs": kw}
+            case_json = {"graph": gd, "config": cfgd, "starts": starts, "bfs": kw, "container": cont}
             ctx.case_seen(case_json, nontrivial)
             ctx.count("kind_" + gd["kind"])
             if graph.encoded_state_size > 1 and graph.string_encoder is not None:
@@ -68,7 +71,7 @@ def run(ctx):
                 persists = True
                 for s in (11, 222, 3333):
                     c2 = dict(cfgd, random_seed=s)
-                    o2, _ = bfsrun.observe(G.make_graph(gd, c2), starts, kw, None)
+                    o2, _ = bfsrun.observe(G.make_graph(gd, c2), starts, kw, None, cont)
                     if bfsrun.oracle_full(gd, starts, o2) is None:
                         persists = False
                         break
@@ -115,7 +118,7 @@ def replay_case(case):
     gd, cfgd, starts, kw = case["graph"], case["config"], case["starts"], case["bfs"]
     for s in ((cfgd.get("random_seed"),) if case.get("seed_specific") else (cfgd.get("random_seed"), 11, 222, 3333)):
         c2 = dict(cfgd, random_seed=s)
-        obs, _ = bfsrun.observe(G.make_graph(gd, c2), starts, kw, None)
+        obs, _ = bfsrun.observe(G.make_graph(gd, c2), starts, kw, None, case.get("container"))
         msg = bfsrun.oracle_full(gd, starts, obs)
         if msg is None:
             return None
